@@ -845,3 +845,372 @@ Theorem remove_simplex_as_found_refuted :
 Proof.
   exists [Ins [1; 2; 3]; Rem [1]], [2; 3]. split; [congruence|]. vm_compute. congruence.
 Qed.
+
+(* ================================================================== lazy variant *)
+Lemma l_membership_iff : forall E s, s <> [] -> (l_membership E s = true <-> Mem E s).
+Proof.
+  intros E s Hs. unfold l_membership. destruct (best_index_some E s Hs) as [v [Hv ->]].
+  destruct (has_v E v) eqn:Hh.
+  - rewrite existsb_exists. split.
+    + intros [t [Ht Hq]]. apply t0_In in Ht. exists t; split; [tauto|]. apply subsetb_incl; auto.
+    + intros [t [Ht Hq]]. exists t; split; [apply t0_In; split; auto|apply subsetb_incl; auto].
+  - split; [discriminate|]. intros [t [Ht Hq]]. exfalso. apply (has_v_false E v Hh t Ht); auto.
+Qed.
+
+Lemma l_insert_ne : forall E s, s <> [] -> l_insert E s = if existsb (seqb s) E then E else E ++ [s].
+Proof. intros E [|x s] H; [congruence|reflexivity]. Qed.
+
+Lemma l_insert_props : forall E s, True ->
+  True /\ (forall r, In r (l_insert E s) -> In r E \/ r = s) /\ (forall r, In r E -> ~ incl r s -> In r (l_insert E s))
+  /\ (s <> [] -> exists r0, In r0 (l_insert E s) /\ incl s r0 /\ (r0 = s \/ In r0 E)).
+Proof.
+  intros E s _. split; auto. destruct (list_eq_dec Z.eq_dec s []) as [->|Hs].
+  - cbn. repeat split; auto. congruence.
+  - rewrite (l_insert_ne E s Hs). destruct (existsb (seqb s) E) eqn:Eq.
+    + repeat split; auto. intros _. apply existsb_exists in Eq. destruct Eq as [t [Ht Hq]]. apply seqb_iff in Hq.
+      exists t; tauto.
+    + repeat split.
+      * intros r Hr. apply in_app_or in Hr. destruct Hr as [Hr|[<-|[]]]; auto.
+      * intros r Hr _. apply in_or_app; auto.
+      * intros _. exists s. split; [apply in_or_app; right; left; auto|split; [apply incl_refl|auto]].
+Qed.
+
+Lemma l_insert_keep : forall E s r, In r E -> In r (l_insert E s).
+Proof.
+  intros E s r Hr. destruct (list_eq_dec Z.eq_dec s []) as [->|Hs]; auto.
+  rewrite (l_insert_ne E s Hs). destruct (existsb (seqb s) E); auto. apply in_or_app; auto.
+Qed.
+
+Lemma l_insert_Mem : forall E s r, r <> [] -> (Mem (l_insert E s) r <-> Mem E r \/ incl r s).
+Proof.
+  intros E s r Hr. destruct (l_insert_props E s I) as [_ [I2 [_ I4]]]. split.
+  - intros [t [Ht Hi]]. destruct (I2 t Ht) as [H| ->]; [left; exists t|right]; auto.
+  - intros [[t [Ht Hi]]|Hi].
+    + exists t; split; auto. apply l_insert_keep; auto.
+    + assert (Hs : s <> []) by (intros ->; apply (incl_nil_inv r Hr); auto).
+      destruct (I4 Hs) as [r0 [H0 [H1 _]]]. exists r0; split; auto. eapply incl_tran; eauto.
+Qed.
+
+Lemma l_insert_fold_Mem : forall fs E r, r <> [] ->
+  (Mem (fold_left l_insert fs E) r <-> Mem E r \/ exists f, In f fs /\ incl r f).
+Proof.
+  induction fs as [|f fs IH]; intros E r Hr; cbn [fold_left].
+  - split; auto. intros [H|[f [[] _]]]; auto.
+  - rewrite (IH _ r Hr), (l_insert_Mem E f r Hr). split.
+    + intros [[H|H]|[g [Hg Hi]]]; auto; right; [exists f|exists g]; split; auto; [left|right]; auto.
+    + intros [H|[g [[<-|Hg] Hi]]]; auto. right; exists g; auto.
+Qed.
+
+Lemma l_insert_fold_In : forall fs E r, In r (fold_left l_insert fs E) -> In r E \/ In r fs.
+Proof.
+  induction fs as [|f fs IH]; intros E r H; cbn [fold_left] in H; auto.
+  destruct (IH _ _ H) as [H1|H1]; [|right; right; auto].
+  destruct (l_insert_props E f I) as [_ [I2 _]]. destruct (I2 r H1) as [H2| ->]; auto. right; left; auto.
+Qed.
+
+Lemma l_insert_fold_keep : forall fs E r, In r E -> In r (fold_left l_insert fs E).
+Proof. induction fs as [|f fs IH]; intros E r H; cbn [fold_left]; auto. apply IH. apply l_insert_keep; auto. Qed.
+
+(* remove_simplex *)
+Definition lbody (s : simplex) (E : list simplex) (tau : simplex) : list simplex :=
+  if subsetb s tau then fold_left l_insert (map (fun v => del v tau) s) (l_erase E tau) else E.
+
+Lemma l_erase_In : forall E tau r, In r (l_erase E tau) <-> In r E /\ seqb r tau = false.
+Proof. intros; unfold l_erase; rewrite filter_In, negb_true_iff; tauto. Qed.
+
+Lemma lloop_props : forall s S E, s <> [] ->
+  (forall t, In t S -> incl s t -> forall w, In w s -> del w t <> [] -> Mem E (del w t)) ->
+  let R := fold_left (lbody s) S E in
+  (forall r, r <> [] -> ~ incl s r -> (Mem R r <-> Mem E r))
+  /\ (forall rho, In rho R -> incl s rho -> In rho E /\ forall t, In t S -> seqb rho t = false).
+Proof.
+  intros s S. induction S as [|tau S IH]; intros E Hs HS; cbn [fold_left].
+  - split; [intros; tauto|]. intros rho Hr Hi. split; auto. intros t [].
+  - set (E1 := lbody s E tau).
+    assert (Key : (forall r, r <> [] -> ~ incl s r -> (Mem E1 r <-> Mem E r))
+                  /\ (forall rho, In rho E1 -> incl s rho -> In rho E /\ seqb rho tau = false)).
+    { unfold E1, lbody. destruct (subsetb s tau) eqn:Est.
+      - apply subsetb_incl in Est. split.
+        + intros r Hr Hn. rewrite (l_insert_fold_Mem _ _ r Hr). split.
+          * intros [[t [Ht Hi]]|[f [Hf Hi]]].
+            -- apply l_erase_In in Ht. exists t; tauto.
+            -- apply in_map_iff in Hf. destruct Hf as [w [<- Hw]].
+               assert (Hne : del w tau <> []) by (intros E0; rewrite E0 in Hi; apply (incl_nil_inv r); auto).
+               eapply Mem_mono; [exact (HS tau (or_introl eq_refl) Est w Hw Hne)|auto].
+          * intros [t [Ht Hi]]. destruct (seqb t tau) eqn:Eq.
+            -- apply seqb_iff in Eq. destruct (subsetb s r) eqn:Esr; [apply subsetb_incl in Esr; contradiction|].
+               apply subsetb_false in Esr. destruct Esr as [w [Hw Hnw]].
+               right. exists (del w tau). split; [apply in_map_iff; exists w; auto|].
+               intros y Hy. apply del_In. split; [apply Eq; auto|intros <-; auto].
+            -- left. exists t; split; auto. apply l_erase_In; auto.
+        + intros rho Hr Hi. apply l_insert_fold_In in Hr. destruct Hr as [Hr|Hr].
+          * apply l_erase_In in Hr; auto.
+          * apply in_map_iff in Hr. destruct Hr as [w [<- Hw]]. exfalso. apply Hi in Hw. apply del_In in Hw. tauto.
+      - split; [intros; tauto|]. intros rho Hr Hi. split; auto.
+        destruct (seqb rho tau) eqn:Eq; auto. apply seqb_iff in Eq.
+        assert (subsetb s tau = true) by (apply subsetb_incl; eapply incl_tran; [exact Hi|apply Eq]). congruence. }
+    destruct Key as [K1 K2].
+    assert (HS1 : forall t, In t S -> incl s t -> forall w, In w s -> del w t <> [] -> Mem E1 (del w t)).
+    { intros t Ht Hi w Hw Hne. apply K1; auto.
+      - intros H. apply H in Hw. apply del_In in Hw. tauto.
+      - apply HS; auto. right; auto. }
+    destruct (IH E1 Hs HS1) as [L1 L2]. split.
+    + intros r Hr Hn. rewrite (L1 r Hr Hn). apply K1; auto.
+    + intros rho Hr Hi. destruct (L2 rho Hr Hi) as [M1 M2]. destruct (K2 rho M1 Hi) as [N1 N2].
+      split; auto. intros t [<-|Ht]; auto.
+Qed.
+
+Lemma l_remove_ok : forall E s r, r <> [] -> (Mem (l_remove_gen true E s) r <-> Mem E r /\ ~ incl s r).
+Proof.
+  intros E s r Hr. unfold l_remove_gen. destruct s as [|x s'].
+  - split; [intros [t [[] _]]|]. intros [_ H]. exfalso. apply H. intros y [].
+  - set (s := x :: s'). assert (Hs : s <> []) by (unfold s; congruence).
+    destruct (best_index_some E s Hs) as [v [Hv ->]]. destruct (has_v E v) eqn:Hh.
+    + change (fold_left _ (t0 E v) E) with (fold_left (lbody s) (t0 E v) E).
+      destruct (lloop_props s (t0 E v) E Hs) as [L1 L2].
+      { intros t Ht _ w _ _. apply t0_In in Ht. exists t; split; [tauto|apply del_incl]. }
+      destruct (subsetb s r) eqn:Esr.
+      * apply subsetb_incl in Esr. split; [|tauto]. intros [t [Ht Hi]]. exfalso.
+        assert (Hst : incl s t) by (eapply incl_tran; eauto).
+        destruct (L2 t Ht Hst) as [M1 M2].
+        assert (seqb t t = false) by (apply M2; apply t0_In; split; auto). rewrite seqb_refl in H; discriminate.
+      * assert (Hn : ~ incl s r) by (intros H; apply subsetb_incl in H; congruence).
+        rewrite (L1 r Hr Hn). tauto.
+    + split; [|tauto]. intros H; split; auto. intros Hi. destruct H as [t [Ht Hrt]].
+      apply (has_v_false E v Hh t Ht); auto.
+Qed.
+
+(* clean(v) is invisible *)
+Lemma fold_max_ge : forall l a x, (In x l \/ (x <= a)%nat) -> (x <= fold_left Nat.max l a)%nat.
+Proof.
+  induction l as [|y l IH]; intros a x H; cbn [fold_left].
+  - destruct H as [[]|H]; auto.
+  - apply IH. destruct H as [[->|H]|H]; auto; right; lia.
+Qed.
+
+Lemma dedup_nonempty : forall l, l <> [] -> dedup l <> [].
+Proof.
+  induction l as [|x l IH]; intros H; [congruence|]. cbn. destruct (memv x l) eqn:E; [|congruence].
+  apply IH. intros ->. cbn in E. discriminate.
+Qed.
+
+Definition tops_step (acc : state) (s : simplex) : state := if membership acc s then acc else insert_independent acc s.
+
+Lemma tops_step_keep : forall acc s r, In r acc -> In r (tops_step acc s).
+Proof. intros; unfold tops_step. destruct (membership acc s); auto. apply insert_independent_keep; auto. Qed.
+
+Lemma tops_step_In : forall acc s r, In r (tops_step acc s) -> In r acc \/ r = s.
+Proof. intros acc s r; unfold tops_step. destruct (membership acc s); auto. apply insert_independent_In. Qed.
+
+Lemma tops_step_Mem : forall acc s, s <> [] -> Mem (tops_step acc s) s.
+Proof.
+  intros acc s Hs. unfold tops_step. destruct (membership acc s) eqn:E.
+  - apply membership_iff in E; auto.
+  - rewrite insert_independent_ne by auto. destruct (existsb (seqb s) acc) eqn:E2.
+    + apply existsb_exists in E2. destruct E2 as [t [Ht Hq]]. apply seqb_iff in Hq. exists t; tauto.
+    + exists s; split; [apply in_or_app; right; left; auto|apply incl_refl].
+Qed.
+
+Lemma tops_inner : forall L acc,
+  let R := fold_left tops_step L acc in
+  (forall r, In r acc -> In r R) /\ (forall r, In r R -> In r acc \/ In r L) /\ (forall s, In s L -> s <> [] -> Mem R s).
+Proof.
+  induction L as [|s L IH]; intros acc; cbn [fold_left].
+  - repeat split; auto. intros s [].
+  - destruct (IH (tops_step acc s)) as [I1 [I2 I3]]. repeat split.
+    + intros r Hr. apply I1. apply tops_step_keep; auto.
+    + intros r Hr. destruct (I2 r Hr) as [H|H]; [|right; right; auto].
+      destruct (tops_step_In _ _ _ H) as [H1| ->]; auto. right; left; auto.
+    + intros u [<-|Hu] Hne; auto. destruct (tops_step_Mem acc s Hne) as [t [Ht Hi]]. exists t; split; auto.
+Qed.
+
+Lemma tops_outer : forall (S : list simplex) ds acc,
+  let R := fold_left (fun acc d => fold_left tops_step (filter (fun s => Nat.eqb (card s) d) S) acc) ds acc in
+  (forall r, In r acc -> In r R) /\ (forall r, In r R -> In r acc \/ In r S)
+  /\ (forall s, In s S -> s <> [] -> In (card s) ds -> Mem R s).
+Proof.
+  intros S. induction ds as [|d ds IH]; intros acc; cbn [fold_left].
+  - repeat split; auto. intros s _ _ [].
+  - set (acc1 := fold_left tops_step (filter (fun s => Nat.eqb (card s) d) S) acc).
+    destruct (tops_inner (filter (fun s => Nat.eqb (card s) d) S) acc) as [J1 [J2 J3]]. fold acc1 in J1, J2, J3.
+    destruct (IH acc1) as [I1 [I2 I3]]. repeat split.
+    + intros r Hr. apply I1. apply J1; auto.
+    + intros r Hr. destruct (I2 r Hr) as [H|H]; auto. destruct (J2 r H) as [H1|H1]; auto.
+      apply filter_In in H1. tauto.
+    + intros s Hs Hne [Hd|Hd]; auto. subst d.
+      assert (Mem acc1 s). { apply J3; auto. apply filter_In. split; auto. apply Nat.eqb_refl. }
+      destruct H as [t [Ht Hi]]. exists t; split; auto.
+Qed.
+
+Lemma clean_tops_props : forall S,
+  (forall r, In r (clean_tops S) -> In r S) /\ (forall s, In s S -> s <> [] -> Mem (clean_tops S) s).
+Proof.
+  intros S. unfold clean_tops.
+  destruct (tops_outer S (rev (seq 1 (fold_left Nat.max (map card S) 0%nat))) []) as [I1 [I2 I3]]. split.
+  - intros r Hr. destruct (I2 r Hr) as [[]|H]; auto.
+  - intros s Hs Hne. apply I3; auto. apply in_rev. rewrite rev_involutive. apply in_seq.
+    assert (1 <= card s)%nat.
+    { unfold card. pose proof (dedup_nonempty s Hne). destruct (dedup s); [congruence|cbn; lia]. }
+    assert (card s <= fold_left Nat.max (map card S) 0)%nat by (apply fold_max_ge; left; apply in_map; auto).
+    lia.
+Qed.
+
+Lemma fold_l_erase_In : forall S E r, In r (fold_left l_erase S E) <-> In r E /\ forall t, In t S -> seqb r t = false.
+Proof.
+  induction S as [|t S IH]; intros E r; cbn [fold_left].
+  - split; [intros H; split; auto; intros t []|tauto].
+  - rewrite IH, l_erase_In. split.
+    + intros [[H1 H2] H3]. split; auto. intros g [<-|Hg]; auto.
+    + intros [H1 H2]. split; [split|]; auto. apply H2; left; auto. intros g Hg; apply H2; right; auto.
+Qed.
+
+Lemma l_clean_ok : forall E v r, r <> [] -> (Mem (l_clean E v) r <-> Mem E r).
+Proof.
+  intros E v r Hr. unfold l_clean. rewrite (l_insert_fold_Mem _ _ r Hr).
+  destruct (clean_tops_props (t0 E v)) as [C1 C2]. split.
+  - intros [[t [Ht Hi]]|[f [Hf Hi]]].
+    + apply fold_l_erase_In in Ht. exists t; tauto.
+    + apply C1 in Hf. apply t0_In in Hf. exists f; tauto.
+  - intros [t [Ht Hi]]. destruct (existsb (seqb t) (t0 E v)) eqn:Eq.
+    + apply existsb_exists in Eq. destruct Eq as [u [Hu Hq]]. apply seqb_iff in Hq.
+      assert (Hun : u <> []). { intros ->. apply (incl_nil_inv r Hr). eapply incl_tran; [exact Hi|apply Hq]. }
+      destruct (C2 u Hu Hun) as [c [Hc Hic]]. right. exists c; split; auto.
+      eapply incl_tran; [exact Hi|]. eapply incl_tran; [apply Hq|auto].
+    + left. exists t; split; auto. apply fold_l_erase_In. split; auto.
+      intros u Hu. destruct (seqb t u) eqn:E2; auto.
+      assert (existsb (seqb t) (t0 E v) = true) by (apply existsb_exists; exists u; auto). congruence.
+Qed.
+
+(* contraction *)
+Lemma l_contract_ok : forall E K x y k, Rep E K -> l_survivor_ok E x y k = true ->
+  Rep (l_contract E x y k) (spec_contract K (if Z.eqb k x then y else x) k).
+Proof.
+  intros E K x y k HK Hok. unfold l_contract, l_survivor_ok in *.
+  destruct (has_v E x) eqn:Hx; cbn [negb orb] in *.
+  - destruct (has_v E y) eqn:Hy; cbn [negb] in *.
+    + unfold l_contraction.
+      change (fold_left _ (t0 E (if Z.eqb k x then y else x)) E)
+        with (loop l_insert (gcon k (if Z.eqb k x then y else x)) (t0 E (if Z.eqb k x then y else x)) E).
+      destruct (contract_loop_gen l_insert (fun _ => True) (fun _ _ _ => I) l_insert_props E k (if Z.eqb k x then y else x) I) as [_ H2].
+      eapply contract_final; eauto.
+    + apply Z.eqb_eq in Hok. subst k. rewrite Z.eqb_refl. apply contract_absent; auto. apply has_v_false; auto.
+  - apply Z.eqb_eq in Hok. subst k. destruct (Z.eqb y x) eqn:Eyx.
+    + apply Z.eqb_eq in Eyx. subst y. apply contract_absent; auto. apply has_v_false; auto.
+    + apply contract_absent; auto. apply has_v_false; auto.
+Qed.
+
+Lemma l_step_refines : forall E K o, Rep E K -> l_ok E o = true -> Rep (l_step true E o) (l_spec K o).
+Proof.
+  intros E K o HK Hok. destruct o as [[s|s|x|x y] k|v]; cbn [l_step l_spec spec_step].
+  - intros r Hr. unfold spec_insert. rewrite orb_true_iff, andb_true_iff, (HK r Hr), nonempty_iff, subsetb_incl.
+    rewrite (l_insert_Mem E s r Hr). tauto.
+  - intros r Hr. unfold spec_remove. rewrite andb_true_iff, negb_true_iff, (HK r Hr), (l_remove_ok E s r Hr).
+    rewrite <- not_true_iff_false, subsetb_incl. tauto.
+  - intros r Hr. unfold spec_remove_vertex. rewrite andb_true_iff, negb_true_iff, (HK r Hr), (l_remove_ok E [x] r Hr).
+    rewrite <- not_true_iff_false, memv_In. split; intros [H1 H2]; split; auto.
+    + intros Hi. apply H2. apply Hi; left; auto.
+    + intros Hx. apply H2. intros y [<-|[]]; auto.
+  - apply l_contract_ok; auto.
+  - intros r Hr. rewrite (l_clean_ok E v r Hr). apply HK; auto.
+Qed.
+
+Lemma l_run_from_refines : forall h E K, Rep E K ->
+  let '(E', K', b) := l_run_from E K h in b = true -> Rep E' K'.
+Proof.
+  induction h as [|o h IH]; intros E K HK; cbn [l_run_from]; auto.
+  specialize (IH (l_step true E o) (l_spec K o)).
+  destruct (l_run_from (l_step true E o) (l_spec K o) h) as [[E' K'] b].
+  intros Hb. apply andb_true_iff in Hb. destruct Hb as [Hb1 Hb2]. apply IH; auto. apply l_step_refines; auto.
+Qed.
+
+Theorem lazy_membership_spec : forall h E K b, l_run h = (E, K, b) -> b = true ->
+  forall r, r <> [] -> l_membership E r = K r.
+Proof.
+  intros h E K b Hrun Hb r Hr. pose proof (l_run_from_refines h [] spec_empty (proj2 Rf_init)) as H.
+  unfold l_run in Hrun. rewrite Hrun in H. apply eq_true_iff_eq. rewrite (H Hb r Hr). apply l_membership_iff; auto.
+Qed.
+
+(* both variants on the same history, cleaning steps interleaved arbitrarily *)
+Lemma both_run_refines : forall h T E K, Rf T K -> Rep E K ->
+  let '(T', E', b) := both_run_from T E h in b = true -> exists K', Rf T' K' /\ Rep E' K'.
+Proof.
+  induction h as [|o h IH]; intros T E K HT HE; cbn [both_run_from].
+  - intros _. exists K; auto.
+  - destruct o as [o k|v].
+    + pose proof (step_refines T K o HT) as H1. destruct (step T o) as [T1 ret] eqn:Est. cbn [fst snd] in H1.
+      specialize (IH T1 (l_step true E (LOp o k)) (spec_step K o ret) H1).
+      destruct (both_run_from T1 (l_step true E (LOp o k)) h) as [[T2 E2] b].
+      intros Hb. apply andb_true_iff in Hb. destruct Hb as [Hb Hb3]. apply andb_true_iff in Hb. destruct Hb as [Hb1 Hb2].
+      apply IH; auto.
+      assert (Esp : spec_step K o ret = l_spec K (LOp o k)).
+      { destruct o as [s|s|x|x y]; cbn [l_spec spec_step]; auto. cbn [same_ret] in Hb2.
+        destruct ret as [k'|]; [|discriminate]. apply Z.eqb_eq in Hb2. subst k'. reflexivity. }
+      rewrite Esp. apply l_step_refines; auto.
+    + specialize (IH T (l_clean E v) K HT). destruct (both_run_from T (l_clean E v) h) as [[T2 E2] b].
+      apply IH. intros r Hr. rewrite (l_clean_ok E v r Hr). apply HE; auto.
+Qed.
+
+Theorem lazy_eq_eager : forall h T E b, both_run h = (T, E, b) -> b = true ->
+  forall r, r <> [] -> l_membership E r = membership T r.
+Proof.
+  intros h T E b Hrun Hb r Hr. pose proof (both_run_refines h [] [] spec_empty Rf_init (proj2 Rf_init)) as H.
+  unfold both_run in Hrun. rewrite Hrun in H. destruct (H Hb) as [K [[_ H1] H2]].
+  apply eq_true_iff_eq. rewrite (l_membership_iff E r Hr), (membership_iff T r Hr), <- (H1 r Hr), <- (H2 r Hr). tauto.
+Qed.
+
+Theorem lazy_cleaning_invisible : forall E v r, r <> [] -> l_membership (l_clean E v) r = l_membership E r.
+Proof.
+  intros E v r Hr. apply eq_true_iff_eq. rewrite !l_membership_iff by auto. apply l_clean_ok; auto.
+Qed.
+
+(* the closed form of spec_contract is the image of the complex under the vertex map d |-> k *)
+Definition vmap (d k : Z) (t : simplex) : simplex := map (fun v => if Z.eqb v d then k else v) t.
+Definition Respects (K : cplx) : Prop := forall a b, incl a b -> incl b a -> K a = K b.
+
+Lemma vmap_In : forall d k t y, In y (vmap d k t) <-> exists v, In v t /\ y = (if Z.eqb v d then k else v).
+Proof. intros; unfold vmap; rewrite in_map_iff. split; intros [v [H1 H2]]; exists v; auto. Qed.
+
+Theorem spec_contract_is_image : forall K d k r, d <> k -> Respects K ->
+  (spec_contract K d k r = true <-> exists t, K t = true /\ incl (vmap d k t) r /\ incl r (vmap d k t)).
+Proof.
+  intros K d k r Hdk HR. rewrite (spec_contract_true K d k r Hdk). split.
+  - intros [Hd [H|[Hk [H|H]]]].
+    + exists r. split; auto. split; intros y Hy.
+      * apply vmap_In in Hy. destruct Hy as [v [Hv ->]]. destruct (Z.eqb v d) eqn:E; auto. apply Z.eqb_eq in E; subst; contradiction.
+      * apply vmap_In. exists y. split; auto. destruct (Z.eqb y d) eqn:E; auto. apply Z.eqb_eq in E; subst; contradiction.
+    + exists (d :: del k r). split; auto. split; intros y Hy.
+      * apply vmap_In in Hy. destruct Hy as [v [[<-|Hv] ->]]; [rewrite Z.eqb_refl; auto|].
+        apply del_In in Hv. destruct (Z.eqb v d) eqn:E; [auto|tauto].
+      * apply vmap_In. destruct (Z.eq_dec y k) as [->|Hn].
+        -- exists d. split; [left; auto|rewrite Z.eqb_refl; auto].
+        -- exists y. split; [right; apply del_In; auto|]. destruct (Z.eqb y d) eqn:E; auto. apply Z.eqb_eq in E; subst; contradiction.
+    + exists (d :: r). split; auto. split; intros y Hy.
+      * apply vmap_In in Hy. destruct Hy as [v [[<-|Hv] ->]]; [rewrite Z.eqb_refl; auto|].
+        destruct (Z.eqb v d) eqn:E; auto.
+      * apply vmap_In. exists y. split; [right; auto|]. destruct (Z.eqb y d) eqn:E; auto. apply Z.eqb_eq in E; subst; contradiction.
+  - intros [t [Ht [H1 H2]]].
+    assert (Hd : ~ In d r).
+    { intros Hd. apply H2 in Hd. apply vmap_In in Hd. destruct Hd as [v [Hv E]]. destruct (Z.eqb v d) eqn:E2; [congruence|].
+      apply Z.eqb_neq in E2. congruence. }
+    split; auto.
+    assert (Hsub : forall y, In y t -> y <> d -> In y r).
+    { intros y Hy Hn. apply H1. apply vmap_In. exists y. split; auto. apply Z.eqb_neq in Hn. rewrite Hn; auto. }
+    assert (Hback : forall y, In y r -> y <> k -> In y t).
+    { intros y Hy Hn. apply H2 in Hy. apply vmap_In in Hy. destruct Hy as [v [Hv E]]. destruct (Z.eqb v d); congruence. }
+    destruct (memv d t) eqn:Edt.
+    + apply memv_In in Edt. assert (Hk : In k r).
+      { apply H1. apply vmap_In. exists d. split; auto. rewrite Z.eqb_refl; auto. }
+      right. split; auto. destruct (memv k t) eqn:Ekt.
+      * apply memv_In in Ekt. right. rewrite <- Ht. apply HR; intros y Hy.
+        -- destruct Hy as [<-|Hy]; auto. destruct (Z.eq_dec y k) as [->|Hn]; auto.
+        -- destruct (Z.eq_dec y d) as [->|Hn]; [left; auto|right; auto].
+      * apply memv_false in Ekt. left. rewrite <- Ht. apply HR; intros y Hy.
+        -- destruct Hy as [<-|Hy]; auto. apply del_In in Hy. apply Hback; [tauto|]. intros ->; tauto.
+        -- destruct (Z.eq_dec y d) as [->|Hn]; [left; auto|right]. apply del_In. split; auto. intros <-; auto.
+    + apply memv_false in Edt. left. rewrite <- Ht. apply HR; intros y Hy.
+      * destruct (Z.eq_dec y k) as [->|Hn]; auto.
+        apply H2 in Hy. apply vmap_In in Hy. destruct Hy as [v [Hv E]]. destruct (Z.eqb v d) eqn:E2.
+        -- apply Z.eqb_eq in E2; subst; contradiction.
+        -- subst; auto.
+      * apply Hsub; auto. intros ->; auto.
+Qed.
